@@ -13,6 +13,42 @@ use std::sync::atomic::{AtomicU64, AtomicUsize, Ordering};
 use std::sync::Mutex;
 use std::time::Instant;
 
+/// The library prints diagnostics with println!. In `run` / `replay` mode fd 1 is pointed at /dev/null
+/// and the harness writes through a duplicate of the original stdout.
+pub static OUT_FD: std::sync::atomic::AtomicI32 = std::sync::atomic::AtomicI32::new(1);
+
+pub fn silence_library_stdout() {
+    unsafe {
+        let saved = libc::dup(1);
+        let null = libc::open(c"/dev/null".as_ptr(), libc::O_WRONLY);
+        if saved >= 0 && null >= 0 {
+            libc::dup2(null, 1);
+            libc::close(null);
+            OUT_FD.store(saved, Ordering::SeqCst);
+        }
+    }
+}
+
+pub fn out_write(s: &str) {
+    let fd = OUT_FD.load(Ordering::SeqCst);
+    let b = s.as_bytes();
+    let mut off = 0;
+    while off < b.len() {
+        let r = unsafe { libc::write(fd, b[off..].as_ptr() as *const libc::c_void, b.len() - off) };
+        if r <= 0 {
+            break;
+        }
+        off += r as usize;
+    }
+}
+
+#[macro_export]
+macro_rules! outln {
+    ($($arg:tt)*) => {
+        $crate::core::out_write(&format!("{}\n", format!($($arg)*)))
+    };
+}
+
 #[derive(Clone, Copy, PartialEq, Eq, Debug)]
 pub enum Tier {
     Quick,
@@ -369,12 +405,12 @@ pub fn run_batch<S: Scenario>(sc: &S, opts: &BatchOpts) -> BatchOutcome {
                             original_plan: pv,
                         };
                         let path = write_replay(&opts.replay_dir, &rf);
-                        println!(
+                        outln!(
                             "VIOLATION property={} replay={}",
                             opts.target,
                             path.display()
                         );
-                        println!("  oracle=no-progress scenario={} run={}", sc.name(), i);
+                        outln!("  oracle=no-progress scenario={} run={}", sc.name(), i);
                         std::process::exit(1);
                     }
                 }
@@ -449,7 +485,7 @@ pub fn run_batch<S: Scenario>(sc: &S, opts: &BatchOpts) -> BatchOutcome {
         let plan0 = sc.generate(&mut rng, opts.tier, &opts.target);
         let (plan, vmin, steps) = minimise(sc, &plan0, v, &opts.target, opts.shrink_budget);
         if let Some(text) = known.matches(&vmin) {
-            println!("KNOWN-FINDING: property={} {}", vmin.property, text);
+            outln!("KNOWN-FINDING: property={} {}", vmin.property, text);
             n_known += 1;
             reported.push(json!({"known": true, "oracle": vmin.oracle, "key": vmin.key}));
             continue;
@@ -480,8 +516,8 @@ pub fn run_batch<S: Scenario>(sc: &S, opts: &BatchOpts) -> BatchOutcome {
             }
             Err(_) => false,
         };
-        println!("VIOLATION property={} replay={}", vmin.property, path.display());
-        println!(
+        outln!("VIOLATION property={} replay={}", vmin.property, path.display());
+        outln!(
             "  scenario={} oracle={} key={} run={} run_seed={} shrink_steps={} fresh_process_replay={}",
             sc.name(),
             vmin.oracle,
@@ -491,7 +527,7 @@ pub fn run_batch<S: Scenario>(sc: &S, opts: &BatchOpts) -> BatchOutcome {
             steps,
             if reproduced { "reproduced" } else { "NOT-reproduced" }
         );
-        println!("  detail: {}", truncate(&vmin.detail, 600));
+        outln!("  detail: {}", truncate(&vmin.detail, 600));
         n_viol += 1;
         reported.push(json!({"known": false, "oracle": vmin.oracle, "key": vmin.key, "replay": path.display().to_string(), "reproduced": reproduced}));
     }
@@ -536,7 +572,7 @@ pub fn run_batch<S: Scenario>(sc: &S, opts: &BatchOpts) -> BatchOutcome {
         });
         std::fs::write(part, serde_json::to_string_pretty(&part_json).unwrap()).expect("write part");
     }
-    println!(
+    outln!(
         "[{}:{}] runs={} events={} distinct_nontrivial={} violations={} known={} wall={:.1}s",
         opts.target,
         sc.name(),
@@ -641,7 +677,7 @@ pub fn replay<S: Scenario>(sc: &S, rf: &ReplayFile, known_file: &Path, path: &Pa
     let (v, ctx) = exec_plan(sc, &plan, &rf.property);
     match v {
         None => {
-            println!(
+            outln!(
                 "replay: no violation (events={} sched={:016x} out={:016x})",
                 ctx.events, ctx.sched.0, ctx.out.0
             );
@@ -650,12 +686,12 @@ pub fn replay<S: Scenario>(sc: &S, rf: &ReplayFile, known_file: &Path, path: &Pa
         Some(v) => {
             let known = Known::load(known_file);
             if let Some(t) = known.matches(&v) {
-                println!("KNOWN-FINDING: property={} {}", v.property, t);
+                outln!("KNOWN-FINDING: property={} {}", v.property, t);
                 return 0;
             }
-            println!("VIOLATION property={} replay={}", v.property, path.display());
-            println!("  scenario={} oracle={} key={}", sc.name(), v.oracle, v.key);
-            println!("  detail: {}", truncate(&v.detail, 2000));
+            outln!("VIOLATION property={} replay={}", v.property, path.display());
+            outln!("  scenario={} oracle={} key={}", sc.name(), v.oracle, v.key);
+            outln!("  detail: {}", truncate(&v.detail, 2000));
             1
         }
     }
